@@ -61,6 +61,8 @@ def cases(tier, seed):
                 yield {"k": "git", "rules": list(rs), "nested": False, "where": "info-exclude"}
     for name in GITBYTES:
         yield {"k": "gitbytes", "name": name}
+    for name in GITMETA:
+        yield {"k": "gitmeta", "name": name}
     for sub in (False, True):
         for meson in (False, True):
             for cwd in ("root", "subdir", "outside"):
@@ -433,7 +435,32 @@ def ev_gitbytes(c) -> R:
     return r
 
 
-_EV = {"names": ev_names, "git": ev_git, "sub": ev_sub, "gitbytes": ev_gitbytes}
+GITMETA = {
+    # .gitmodules content that names a plain, tracked directory without making it a submodule
+    "foreign-section-with-path-key": '[mytool "x"]\n\tpath = src\n',
+    "foreign-dotted-key": '[core]\n\tsome.path = src\n[tool]\n\tpath = docs\n',
+    "commented-out-submodule": '# [submodule "old"]\n#\tpath = src\n',
+}
+
+
+def ev_gitmeta(c) -> R:
+    r = R()
+    root = fresh_dir("c03")
+    rec = {"a.py": "a = 1\n", "src/b.py": "b = 1\n", "src/deep/c.py": "c = 1\n", "docs/d.md": "d\n", ".gitmodules": GITMETA[c["name"]]}
+    materialise(root, rec)
+    gitrepo.git(root, "init", "-q")
+    gitrepo.git(root, "add", "-A")
+    cov, unspec, _ = reference_sets(root)
+    r.validated = 0
+    got = consumers(root, do_annotate=True)
+    compare(r, f"git repo whose .gitmodules is {c['name']} ({GITMETA[c['name']]!r}) - no submodule is registered", f"gitmeta|{c['name']}", cov, unspec, got)
+    r.evals = 5
+    r.outcome = "gitmeta"
+    r.tags.append("gitmeta")
+    return r
+
+
+_EV = {"names": ev_names, "git": ev_git, "sub": ev_sub, "gitbytes": ev_gitbytes, "gitmeta": ev_gitmeta}
 
 
 def evaluate(c) -> R:
@@ -451,7 +478,7 @@ def evaluate(c) -> R:
 
 def vacuity(st):
     for t in _EV:
-        if st.tags.get(t, 0) < 4:
+        if st.tags.get(t, 0) < (4 if t != "gitmeta" else 2):
             return f"slice {t} did not run"
     return None
 
